@@ -26,6 +26,7 @@ def engineModel (eng : String) (args : List String) : Option String :=
   | "body" => Body.model args
   | "eng" => Eng.model args
   | "engrep" => Eng.model args
+  | "iso" => Eng.isoModel args
   | _ => none
 
 def engineJudge (eng : String) (args obs : List String) : Bool :=
@@ -36,6 +37,7 @@ def engineJudge (eng : String) (args obs : List String) : Bool :=
   | "body" => Body.judge args obs
   | "eng" => Eng.judge args obs
   | "engrep" => Eng.judge args obs
+  | "iso" => (match Eng.isoModel args with | some m => m == " ".intercalate obs | none => !obs.contains "PANIC")
   | _ => true
 
 def handle (line : String) : String :=
